@@ -113,6 +113,9 @@ func replicaFamily(check string) bool {
 
 // selfConsistencyCheck: verdicts about the node's agreement with itself, which leave the model on track.
 func selfConsistencyCheck(check string) bool {
+	if strings.HasPrefix(check, "crash.") {
+		return true // about a crashed image, not about the block producer the model follows
+	}
 	switch check {
 	case "stake.self", "stake.total", "stake.misfiled", "stake.totalquery", "stake.votingquery", "query.value", "query.unstable", "query.future":
 		return true
@@ -563,7 +566,10 @@ func (w *World) RunBlock(h int64, step *BlockStep) {
 		// not meaningful. Node-vs-node comparisons still are: the world continues for those unless the
 		// violation already is one of them (or the model cannot continue at all).
 		for _, v := range w.Viol {
-			if replicaFamily(v.Check) {
+			// a crashed image that does not recover concerns that image only: the chain, the block producer and
+			// the other recovered nodes go on (otherwise the listed mid-commit finding, which every enumerated
+			// block meets, would end each world one block after its first crash)
+			if replicaFamily(v.Check) && !strings.HasPrefix(v.Check, "crash.") {
 				w.Fatal = true
 			}
 		}
